@@ -917,6 +917,12 @@ struct Scenario {
     /// wallet versions (A, B) announced in the handshake
     versions: Option<((u8, u8, u16), (u8, u8, u16))>,
     extra_peers: Vec<Extra>,
+    /// blocks of another fork (heights of B's chain, other hashes) that wait in A's mempool block
+    /// queue: received earlier from a peer that is gone (index GONE_PEER), their parents never came
+    a_queued: Arc<Vec<Block>>,
+    /// false: they sit in the queue when the peers connect; true: they reach A's consensus
+    /// thread (BlockFetched from the other source) at some point of the exchange
+    a_queued_late: bool,
 }
 
 impl Scenario {
@@ -933,7 +939,7 @@ impl Scenario {
     }
     fn json(&self) -> String {
         format!(
-            "{{\"part\":2,\"scenario\":\"{}\",\"genesis_period\":{},\"initial_loading_completed\":{},\"a_len\":{},\"b_len\":{},\"common_prefix\":{},\"batch\":{},\"verification_threads\":{},\"a_serves_blocks\":{},\"fetch_failures\":\"{:?}\",\"duplicates\":{},\"policy\":\"{:?}\",\"seed\":{},\"b_offered_blocks\":{},\"a_lite\":{},\"b_grows_by\":{},\"wallet_versions\":\"{:?}\",\"further_peers_of_a\":\"{:?}\"}}",
+            "{{\"part\":2,\"scenario\":\"{}\",\"genesis_period\":{},\"initial_loading_completed\":{},\"a_len\":{},\"b_len\":{},\"common_prefix\":{},\"batch\":{},\"verification_threads\":{},\"a_serves_blocks\":{},\"fetch_failures\":\"{:?}\",\"duplicates\":{},\"policy\":\"{:?}\",\"seed\":{},\"b_offered_blocks\":{},\"a_lite\":{},\"b_grows_by\":{},\"wallet_versions\":\"{:?}\",\"further_peers_of_a\":\"{:?}\",\"a_queued_fork_block_ids\":{:?},\"a_queued_during_exchange\":{}}}",
             self.label,
             self.gp,
             self.loading_completed,
@@ -951,7 +957,9 @@ impl Scenario {
             self.a_lite,
             self.b_growth,
             self.versions,
-            self.extra_peers
+            self.extra_peers,
+            self.a_queued.iter().map(|b| b.id).collect::<Vec<_>>(),
+            self.a_queued_late
         )
     }
 }
@@ -998,6 +1006,8 @@ struct RunOut {
     dup_deliveries: u32,
     a_disconnects: usize,
     headers_to_a: usize,
+    /// blocks left in A's mempool block queue at the end
+    a_queue_left: usize,
     trace: Vec<String>,
 }
 
@@ -1058,6 +1068,7 @@ async fn parents_missing(
 
 const A_ON_B: u64 = 1; // index under which B knows A
 const B_ON_A: u64 = 1; // index under which A knows B (first static peer)
+const GONE_PEER: u64 = 7; // a peer A had earlier (source of the queued fork blocks), no longer in its peer collection
 
 struct World {
     a: Sim,
@@ -1230,7 +1241,17 @@ async fn run_scenario(sc: &Scenario, forced: &[usize], budget_trace: bool) -> Ru
             }
         }
     }
-    let n_blocks = sc.a_chain.len() + sc.b_chain.len();
+    // fork blocks of B's heights waiting in A's mempool block queue
+    for blk in sc.a_queued.iter() {
+        let mut blk = blk.clone();
+        blk.routed_from_peer = Some(GONE_PEER);
+        if sc.a_queued_late {
+            w.a.q_cons.push_back(ConsensusEvent::BlockFetched { peer_index: GONE_PEER, block: blk });
+        } else {
+            w.a.mempool.write().await.add_block(blk);
+        }
+    }
+    let n_blocks = sc.a_chain.len() + sc.b_chain.len() + sc.a_queued.len();
     let max_steps = 2_000 + 40 * n_blocks * (n_blocks + 20);
     let mut idle_ticks = 0;
     let mut choice_no = 0usize;
@@ -1516,6 +1537,7 @@ async fn run_scenario(sc: &Scenario, forced: &[usize], budget_trace: bool) -> Ru
             (0, [0; 32])
         }
     };
+    out.a_queue_left = w.a.mempool.read().await.blocks_queue.len();
     if sc.a_lite {
         let bc = w.a.blockchain.read().await;
         let hi = out.a_tip.0.max(out.b_tip.0);
@@ -1880,6 +1902,7 @@ fn p2_case(sc: &Scenario, out: &RunOut) -> Option<String> {
     // is offered before its parent; runs that enter add_block's parentless path are judged
     // by the direct oracle only
     if sc.a_lite
+        || !sc.a_queued.is_empty()
         || !out.panics.is_empty()
         || 2 * sc.gp < (sc.a_chain.len().max(sc.b_chain.len()) as u64)
         || out.child_before_parent.iter().any(|e| e.orphan_path)
@@ -1975,7 +1998,9 @@ async fn async_main(args: Args) {
                 a_lite: false,
                 b_growth: 0,
                 versions: None,
-                    extra_peers: vec![],
+                extra_peers: vec![],
+                a_queued: Arc::new(vec![]),
+                a_queued_late: false,
             }
         };
         let mut base: Vec<Scenario> = vec![];
@@ -2267,6 +2292,103 @@ async fn async_main(args: Args) {
                 }
             }
         }
+        // ---- fork blocks of B's heights wait in A's mempool block queue: blocks of another fork
+        // (same heights as blocks A needs from B, other hashes) whose parents never arrived - their
+        // source peer is gone - and which add_block keeps answering "retry" for (initial loading
+        // completed), or which arrive from that source during the exchange.  A must still fetch
+        // B's block of every such height and end on B's tip.
+        {
+            let mut shapes: Vec<(String, Arc<Vec<Block>>, usize, usize)> = vec![];
+            for (al, bl) in [(3usize, 12usize), (10, 21), (11, 25), (*n - 9, *n)] {
+                if bl <= *n && al < bl {
+                    shapes.push((format!("A prefix {}, B {}", al, bl), Arc::new(mainv[..al].to_vec()), al, bl));
+                }
+            }
+            for (d, sa, bl, dt) in [(9usize, 2usize, 20usize, 200u64), (3, 3, 11, 1000), (10, 1, 13, 200)] {
+                if bl <= *n {
+                    if let Some(f) = extend(*gp, &main, d, sa, dt, 131 + d as u64 + 100 * gi as u64).await {
+                        let common = f.blocks.iter().zip(mainv[..bl].iter()).take_while(|(x, y)| x.hash == y.hash).count();
+                        // only forks of A from which B's chain is adopted when delivered in order
+                        let mut probe = Node::new(&params(*gp, true), 2);
+                        for b in f.blocks.iter().chain(mainv[common..bl].iter()) {
+                            probe.add_block(b.clone()).await;
+                        }
+                        if probe.blockchain.get_latest_block_hash() != mainv[bl - 1].hash {
+                            progress(&format!("queued family: A fork at {} +{} does not adopt B {}", d, sa, bl));
+                            continue;
+                        }
+                        shapes.push((format!("A fork at {} +{}, B {}", common, f.blocks.len() - common, bl), Arc::new(f.blocks.clone()), common, bl));
+                    }
+                }
+            }
+            for (si, (label, a, common, bl)) in shapes.into_iter().enumerate() {
+                let al = a.len();
+                for v in 0..5usize {
+                    // the queued blocks: heights chosen by the PRNG around the blocks A needs
+                    let lo = common + 1; // first height at which A needs B's block
+                    let hi = bl.min(lo + (*gp as usize).min(12) - 2); // (a block too far from the tip is dropped or asks for the chain)
+                    let h = match rng.below(6) {
+                        0 => lo,
+                        1 => bl.min(al + 1).max(lo),
+                        2 => hi,
+                        _ => rng.range(lo as u64, hi as u64) as usize,
+                    };
+                    let run = if rng.chance(1, 3) && h < bl { 2usize } else { 1 };
+                    // a fork leaving the main chain two blocks below h: its block of height h has a parent A never gets
+                    let d = h.saturating_sub(2).min(common.saturating_sub(if rng.chance(1, 2) { 0 } else { 1 }));
+                    let salt = 151 + 10 * si as u64 + v as u64 + 100 * gi as u64;
+                    let f = match extend(*gp, &main, d, h + run - 1 - d, *rng.pick(&[200u64, 400, 1000]), salt).await {
+                        Some(f) => f,
+                        None => {
+                            progress(&format!("queued family: no fork at {} up to {} (salt {})", d, h + run - 1, salt));
+                            continue;
+                        }
+                    };
+                    let queued: Vec<Block> = f.blocks[h - 1..h - 1 + run].to_vec();
+                    let known: BTreeSet<SaitoHash> = a.iter().chain(mainv[..bl].iter()).map(|x| x.hash).collect();
+                    if queued.iter().any(|q| known.contains(&q.hash)) || known.contains(&queued[0].previous_block_hash) {
+                        progress(&format!("queued family: fork at {} gives no parentless block of height {} (salt {})", d, h, salt));
+                        continue;
+                    }
+                    let mut t = mk(
+                        format!("{}, fork blocks {:?} in A's mempool queue", label, queued.iter().map(|q| q.id).collect::<Vec<_>>()),
+                        a.clone(),
+                        Arc::new(mainv[..bl].to_vec()),
+                        common,
+                        &mut rng,
+                    );
+                    t.a_queued = Arc::new(queued);
+                    t.loading_completed = true;
+                    match v {
+                        0 => {
+                            t.batch = 1;
+                            t.verifiers = 1;
+                            t.policy = Policy::Fifo;
+                        }
+                        1 => t.policy = Policy::Fifo,
+                        2 => {
+                            t.policy = Policy::Random;
+                            t.batch = *rng.pick(&[2usize, 3, 10]);
+                            t.a_queued_late = true;
+                        }
+                        3 => {
+                            t.policy = Policy::Random;
+                            t.batch = *rng.pick(&[1usize, 4, 10]);
+                            t.verifiers = *rng.pick(&[1usize, 2]);
+                            t.fail = FailPlan::Random { pct: 20 };
+                        }
+                        _ => {
+                            t.batch = 1;
+                            t.verifiers = 1;
+                            t.policy = Policy::Random;
+                            t.a_queued_late = true;
+                            t.duplicates = true;
+                        }
+                    }
+                    scenarios.push(t);
+                }
+            }
+        }
         // full node, two phases as well
         for (al, k, bl) in [(0usize, 5usize, 12usize), (3, 10, 21), (10, 11, 25)] {
             if bl <= *n {
@@ -2324,6 +2446,8 @@ async fn async_main(args: Args) {
                     b_growth: 0,
                     versions: None,
                     extra_peers: vec![],
+                    a_queued: Arc::new(vec![]),
+                    a_queued_late: false,
                 };
                 let mut forced: Vec<usize> = vec![];
                 let mut runs = 0;
@@ -2482,6 +2606,8 @@ async fn async_main(args: Args) {
                 "lite node (ghost chain)"
             } else if sc.versions.is_some() {
                 if sc.version_gate_closed() { "wallet-version gate closed" } else { "wallet versions set, gate open" }
+            } else if !sc.a_queued.is_empty() {
+                "fork blocks of B's heights in A's mempool queue"
             } else if !sc.extra_peers.is_empty() {
                 "A has further peers"
             } else if !sc.b_history.is_empty() {
@@ -2495,6 +2621,27 @@ async fn async_main(args: Args) {
         summary.count("p2_retry_events", &format!("fetch-previous {} / fetch-chain {}", out.retry_events.0.min(3), out.retry_events.1.min(3)));
         if sc.a_lite {
             summary.count("p2_lite_fetches", &format!("{}", out.requested.len().min(8)));
+        }
+        if !sc.a_queued.is_empty() {
+            let (at, bt) = (sc.a_chain.len() as u64, sc.b_chain.len() as u64);
+            for q in sc.a_queued.iter() {
+                summary.count(
+                    "p2_queued_fork_block_height",
+                    if q.id <= at {
+                        "at or below A's tip"
+                    } else if q.id == at + 1 {
+                        "A's tip + 1 (first block A needs)"
+                    } else if q.id == bt {
+                        "B's tip"
+                    } else if q.id < bt {
+                        "inside the suffix A needs"
+                    } else {
+                        "above B's tip"
+                    },
+                );
+            }
+            summary.count("p2_queued_fork_blocks", &format!("{} {}", sc.a_queued.len(), if sc.a_queued_late { "arriving during the exchange" } else { "queued when the peers connect" }));
+            summary.count("p2_queued_still_in_queue_at_end", &format!("{}", out.a_queue_left.min(3)));
         }
         summary.count("p2_mode", if sc.sequential() { "sequential" } else { "concurrent" });
         summary.count("p2_loading_completed", &format!("{}", sc.loading_completed));
